@@ -5,6 +5,7 @@ import (
 	"fmt"
 	"go/token"
 	"go/types"
+	"os"
 	"sort"
 	"strings"
 
@@ -98,16 +99,82 @@ func LookupField(p *core.Program, pkgRel, typ, field string) *types.Var {
 	}
 	tn, _ := pk.Types.Scope().Lookup(typ).(*types.TypeName)
 	if tn == nil {
+		// an unexported type that was renamed: the only struct of the package that has the
+		// recorded field (same name, position and type)
+		if want, ok := core.AnchorFields[pkgRel+"|"+typ+"|"+field]; ok {
+			var idx int
+			fmt.Sscanf(want, "%d:", &idx)
+			wantT := want[strings.Index(want, ":")+1:]
+			var cands []*types.TypeName
+			for _, n := range pk.Types.Scope().Names() {
+				t2, ok := pk.Types.Scope().Lookup(n).(*types.TypeName)
+				if !ok {
+					continue
+				}
+				if st2, ok := t2.Type().Underlying().(*types.Struct); ok && idx < st2.NumFields() && st2.Field(idx).Name() == field && st2.Field(idx).Type().String() == wantT {
+					cands = append(cands, t2)
+				}
+			}
+			if len(cands) == 1 {
+				tn = cands[0]
+			}
+		}
+	}
+	if tn == nil {
 		return nil
 	}
 	st, ok := tn.Type().Underlying().(*types.Struct)
 	if !ok {
 		return nil
 	}
+	key := pkgRel + "|" + typ + "|" + field
 	for i := 0; i < st.NumFields(); i++ {
 		if st.Field(i).Name() == field {
+			if rec := os.Getenv("S3DBCHECK_RECORD_ANCHORS"); rec != "" {
+				if f, err := os.OpenFile(rec, os.O_APPEND|os.O_CREATE|os.O_WRONLY, 0o644); err == nil {
+					fmt.Fprintf(f, "field:%s\t%d:%s\n", key, i, st.Field(i).Type().String())
+					f.Close()
+				}
+			}
 			return st.Field(i)
 		}
+	}
+	// renamed? (the name of an unexported field is the maintainer's business) fall back to what was
+	// recorded on the reference tree: the only field of the recorded type, or — several fields of
+	// that type — the one at the recorded position, provided no field of the struct carries a
+	// name the table does not know for it (a rename, not a reshuffle)
+	want, ok := core.AnchorFields[key]
+	if !ok {
+		return nil
+	}
+	var idx int
+	var wantT string
+	if _, err := fmt.Sscanf(want, "%d:", &idx); err != nil {
+		return nil
+	}
+	wantT = want[strings.Index(want, ":")+1:]
+	var cands []*types.Var
+	for i := 0; i < st.NumFields(); i++ {
+		if st.Field(i).Type().String() == wantT {
+			cands = append(cands, st.Field(i))
+		}
+	}
+	if len(cands) == 1 {
+		return cands[0]
+	}
+	if len(cands) > 1 && idx < st.NumFields() && st.Field(idx).Type().String() == wantT {
+		// the other recorded fields of the struct still sit where they were recorded
+		for k2, w2 := range core.AnchorFields {
+			if !strings.HasPrefix(k2, pkgRel+"|"+typ+"|") || k2 == key {
+				continue
+			}
+			var i2 int
+			fmt.Sscanf(w2, "%d:", &i2)
+			if i2 >= st.NumFields() || st.Field(i2).Type().String() != w2[strings.Index(w2, ":")+1:] {
+				return nil
+			}
+		}
+		return st.Field(idx)
 	}
 	return nil
 }
